@@ -11,11 +11,16 @@ Definition p_ag_cfgs : list p_cfg :=
                               [true; false]) [PPipe; PSock].
 Definition p_ag_alpha : list p_op :=
   [POAddR 0; PORemR 0; POWrite 0 [1%N; 2%N]; POClosePeer 0; POPoll false].
-Fixpoint p_ag_seqs (n : nat) : list (list p_op) :=
+Fixpoint p_ag_seqs_of (al : list p_op) (n : nat) : list (list p_op) :=
   match n with
   | O => [[]]
-  | S m => [] :: flat_map (fun o => map (cons o) (p_ag_seqs m)) p_ag_alpha
+  | S m => [] :: flat_map (fun o => map (cons o) (p_ag_seqs_of al m)) al
   end.
+Definition p_ag_seqs := p_ag_seqs_of p_ag_alpha.
+(* second domain: with write registrations (sockets get EPOLLOUT; the region of fix 03) *)
+Definition p_ag_alpha_w : list p_op :=
+  [POAddR 0; PORemR 0; POAddW 0; PORemW 0; POWrite 0 [1%N; 2%N]; POClosePeer 0; POPoll false].
+Definition p_ag_seqs_w := p_ag_seqs_of p_ag_alpha_w.
 Definition p_kind_eqb (a b : p_cbk) : bool :=
   match a, b with PKRead, PKRead | PKWrite, PKWrite | PKClose, PKClose => true | _, _ => false end.
 Fixpoint p_bytes_eqb (a b : list N) : bool :=
@@ -46,3 +51,4 @@ Proof.
   intros Hc Ho. pose proof p_ag_bounded as H. unfold p_ag_all in H.
   rewrite forallb_forall in H. specialize (H c Hc). rewrite forallb_forall in H. exact (H ops Ho).
 Qed.
+
